@@ -33,10 +33,11 @@ func generateEndpointAnalysisDiagramHelper(m *sysl.Module,
 		result = mermaid.GeneratedHeader + "graph TD\n"
 	}
 	count := 1
-	for appName, app := range m.Apps {
+	for _, appName := range mermaid.SortedAppNames(m) {
+		app := m.Apps[appName]
 		result += fmt.Sprintf(" subgraph %d[\"%s\"]\n", count, appName)
-		for epName, endPoint := range app.Endpoints {
-			statements := endPoint.Stmt
+		for _, epName := range mermaid.SortedEndpointNames(app) {
+			statements := app.Endpoints[epName].Stmt
 			result += printEndpointAnalysisStatements(m, statements, mermaid.CleanString(epName), externalLinks)
 		}
 		result += " end\n"
@@ -57,9 +58,9 @@ func generateMultipleAppEndpointAnalysisDiagramHelper(m *sysl.Module, appNames [
 	count := 1
 	for _, appName := range appNames {
 		result += fmt.Sprintf(" subgraph %d[\"%s\"]\n", count, appName)
-		endPoints := m.Apps[appName].Endpoints
-		for epName, endPoint := range endPoints {
-			statements := endPoint.Stmt
+		app := m.Apps[appName]
+		for _, epName := range mermaid.SortedEndpointNames(app) {
+			statements := app.Endpoints[epName].Stmt
 			result += printEndpointAnalysisStatements(m, statements, mermaid.CleanString(epName), externalLinks)
 		}
 		result += " end\n"
